@@ -48,7 +48,17 @@ fn main() {
     }
     let thorough = run.tier == Tier::Thorough;
     let d = run.tier.pick(1, 2);
-    let sfx = std_suffixes();
+    let mut sfx = std_suffixes();
+    // trailing data that looks like further SCT entries (a list must not read beyond its declared length)
+    {
+        let mut e = W::new();
+        cat::sct_entry(&mut e, 0, 0x0102030405060708, 0, 4, 3, 2);
+        sfx.push(e.buf.clone());
+        let mut two = e.buf.clone();
+        two.extend_from_slice(&e.buf);
+        sfx.push(two);
+        sfx.push(vec![0x00, 0x00]);
+    }
     let mut sink = Sink::new();
     let scts = cat::scts(thorough);
     let lists = cat::sct_lists(thorough);
@@ -115,7 +125,7 @@ fn main() {
     cov.insert("catalogue_lists".into(), json!(nl));
     cov.insert("sweep_cases".into(), json!(nsweeps));
     cov.insert("rule".into(), json!(format!(
-        "struct: {} single SCT entries and {} lists of 0..3 SCTs x every combination of <= {} deviations (3 nested length prefixes each in {{0,1,true-1,true+1,max}}, every cut, 4 suffixes); all 256 versions, all 65536 algorithm pairs, timestamps over all single/double-bit patterns and every byte x all values; every string of bounded length over positional alphabets; well-formed 45-byte SCT prefix followed by every tail of length <= {}. Oracle: strict RFC 6962 walker + 'a malformed list yields at most the entries before the first bad one, all inside the declared list'. Non-trivial: every case",
+        "struct: {} single SCT entries and {} lists of 0..3 SCTs x every combination of <= {} deviations (3 nested length prefixes each in {{0,1,true-1,true+1,max}}, every cut, 7 suffixes incl. one and two valid SCT entries); all 256 versions, all 65536 algorithm pairs, timestamps over all single/double-bit patterns and every byte x all values; every string of bounded length over positional alphabets; well-formed 45-byte SCT prefix followed by every tail of length <= {}. Oracle: strict RFC 6962 walker + 'a malformed list yields at most the entries before the first bad one, all inside the declared list'. Non-trivial: every case",
         ns, nl, d, tn)));
     let code = run.finish(&sink, cov, vec!["strict walker per DESIGN appendix D; trailing bytes inside an entry are Unspecified".into()]);
     std::process::exit(code);
